@@ -1019,7 +1019,7 @@ def fifo_stream(
         It should not modify its input.
     """
 
-    def feed(instream, func, *, to_stop, q, preprocessor, **func_kwargs):
+    def feed(instream, func, to_stop, q, preprocessor, func_kwargs):
         try:
             for x in instream:
                 if to_stop.is_set():
@@ -1046,8 +1046,8 @@ def fifo_stream(
     to_stop = threading.Event()
     feeder = Thread(
         target=feed,
-        args=(instream, func),
-        kwargs={'to_stop': to_stop, 'q': tasks, 'preprocessor': preprocessor, **kwargs},
+        args=(instream, func, to_stop, tasks, preprocessor, kwargs),
+        # (positional: a keyword argument of the user's function may be called `q` or `to_stop`)
         name=name,
     )
     feeder.start()
@@ -1111,7 +1111,7 @@ async def async_fifo_stream(
     Analogous to :func:`fifo_stream` except for using an async worker function in an async context.
     """
 
-    async def feed(instream, func, *, to_stop, tasks, preprocessor, **func_kwargs):
+    async def feed(instream, func, to_stop, tasks, preprocessor, func_kwargs):
         try:
             async for x in instream:
                 if to_stop.is_set():
@@ -1137,14 +1137,7 @@ async def async_fifo_stream(
     to_stop = asyncio.Event()
     tasks = asyncio.Queue(capacity + 1)
     feeder = asyncio.create_task(
-        feed(
-            instream,
-            func,
-            to_stop=to_stop,
-            tasks=tasks,
-            preprocessor=preprocessor,
-            **kwargs,
-        ),
+        feed(instream, func, to_stop, tasks, preprocessor, kwargs),
         name=name,
     )
 
